@@ -188,7 +188,8 @@ def free_layout(flat, rnd, opts):
     def word(kind, t):
         if kind != "WORD":
             if kind in ("DOT",) and opts.kwcase:
-                return _case_word(r, t, r.n(0, 2))
+                head, sep, kindp = t.partition("_")
+                return _case_word(r, head, r.n(0, 2)) + sep + kindp
             if kind == "NUM" and opts.kwcase and r.chance(30):
                 # exponent letter / kind are case-insensitive; keep kind names as they are
                 return t
@@ -261,6 +262,9 @@ def free_layout(flat, rnd, opts):
                         no_break = True
                 if prev[0] == "LABEL":
                     no_break = True   # a label must be followed by the statement on the same line
+                if (prev[1] == ")" and txt[:1].isalpha() and st.kind == "type_decl"
+                        and "no_glued_decl_entity" in opts.excl):
+                    must = True       # known finding: 'integer(4)x' (no '::', no blank) is rejected
                 if opts.cont and not no_break and r.chance(opts.cont):
                     # continuation break in this gap
                     lay.features.add("cont")
